@@ -92,11 +92,13 @@ extern "C" {
   fn decQuadAbs(arg1: *mut DecQuad, arg2: *const DecQuad, arg3: *mut DecContext) -> *mut DecQuad;
   fn decQuadAdd(arg1: *mut DecQuad, arg2: *const DecQuad, arg3: *const DecQuad, arg4: *mut DecContext) -> *mut DecQuad;
   fn decQuadCompare(arg1: *mut DecQuad, arg2: *const DecQuad, arg3: *const DecQuad, arg4: *mut DecContext) -> *mut DecQuad;
+  fn decQuadDigits(arg1: *const DecQuad) -> c_uint;
   fn decQuadDivide(arg1: *mut DecQuad, arg2: *const DecQuad, arg3: *const DecQuad, arg4: *mut DecContext) -> *mut DecQuad;
   fn decQuadFromBCD(arg1: *mut DecQuad, arg2: c_int, arg3: *const c_uchar, arg4: c_int) -> *mut DecQuad;
   fn decQuadFromString(arg1: *mut DecQuad, arg2: *const c_char, arg3: *mut DecContext) -> *mut DecQuad;
   fn decQuadFromInt32(arg1: *mut DecQuad, arg2: c_int) -> *mut DecQuad;
   fn decQuadFromUInt32(arg1: *mut DecQuad, arg2: c_uint) -> *mut DecQuad;
+  fn decQuadGetExponent(arg1: *const DecQuad) -> c_int;
   fn decQuadIsFinite(arg1: *const DecQuad) -> c_uint;
   fn decQuadIsInteger(arg1: *const DecQuad) -> c_uint;
   fn decQuadIsNegative(arg1: *const DecQuad) -> c_uint;
@@ -330,6 +332,38 @@ pub fn dec_remainder(q1: &DecQuad, q2: &DecQuad) -> DecQuad {
     decQuadRemainder(&mut qr, q1, q2, &mut DEFAULT_CONTEXT.clone());
   }
   qr
+}
+
+/// Returns the exponent of the most significant digit of a finite number.
+fn dec_adjusted_exponent(q: &DecQuad) -> i32 {
+  unsafe { decQuadGetExponent(q) + decQuadDigits(q) as i32 - 1 }
+}
+
+/// Returns `q1 - q2 * floor(q1 / q2)`, calculated from exact remainders,
+/// so the result does not depend on a quotient rounded to 34 digits.
+pub fn dec_modulo(q1: &DecQuad, q2: &DecQuad) -> DecQuad {
+  let mut dividend = *q1;
+  let mut remainder = dec_remainder(&dividend, q2);
+  // The remainder is exact, but it is refused when the integer part of the quotient has more than 34 digits.
+  // Then the dividend is reduced modulo `q2 * 10^k` first, which is a multiple of `q2` and makes the dividend
+  // at least 32 digits shorter in every step.
+  while !dec_is_finite(&remainder) && dec_is_finite(&dividend) && dec_is_finite(q2) && !dec_is_zero(q2) {
+    let k = dec_adjusted_exponent(&dividend) - dec_adjusted_exponent(q2) - 32;
+    if k <= 0 {
+      break;
+    }
+    dividend = dec_remainder(&dividend, &dec_scale_b(q2, &dec_from_i32(k)));
+    remainder = dec_remainder(&dividend, q2);
+  }
+  // the remainder has the sign of the dividend, while the result of modulo has the sign of the divisor
+  if dec_is_finite(&remainder) && dec_is_finite(q2) && !dec_is_zero(&remainder) && dec_is_negative(&remainder) != dec_is_negative(q2) {
+    remainder = dec_add(&remainder, q2);
+  }
+  if dec_is_zero(&remainder) {
+    // no negative zero, whatever the sign of the dividend
+    remainder = dec_abs(&remainder);
+  }
+  remainder
 }
 
 ///
